@@ -11,6 +11,7 @@
 #include <thread>
 #include <vector>
 #include <cerrno>
+#include <cstdlib>
 #include <sys/types.h>
 #include <sys/wait.h>
 #include <unistd.h>
@@ -331,6 +332,32 @@ namespace io {
             parser.parse();
         }
 
+        static int execute(const char* command, int* childpid) {
+            int pipefd[2];
+            if (pipe(pipefd) < 0) {
+                throw std::system_error{errno, std::system_category(), "opening pipe failed"};
+            }
+            const pid_t pid = fork();
+            if (pid < 0) {
+                throw std::system_error{errno, std::system_category(), "fork failed"};
+            }
+            if (pid == 0) {
+                for (int i = 0; i < 32; ++i) {
+                    if (i != pipefd[0] && i != pipefd[1]) {  // W2: the child keeps the read end of its own output pipe
+                        ::close(i);
+                    }
+                }
+                if (dup2(pipefd[1], 1) < 0) {
+                    std::exit(1);
+                }
+                if (::execlp(command, command, nullptr) < 0) {
+                    std::exit(1);
+                }
+            }
+            *childpid = pid;
+            return pipefd[0];  // W2: the parent never closes the write end
+        }
+
     public:
         Reader() :
             m_decompressor(new FailingDecompressor{}),
@@ -338,6 +365,7 @@ namespace io {
             m_osmdata_queue_wrapper(m_osmdata_queue) {
             std::promise<osmium::io::Header> header_promise;
             m_header_future = header_promise.get_future();
+            (void)execute("curl", &m_childpid);
             m_thread = osmium::thread::thread_handler{parser_thread, std::ref(m_input_queue), std::ref(m_osmdata_queue), std::move(header_promise)};
         }
 
